@@ -106,6 +106,18 @@ def check_neg(case):
                 f = _must_raise(data + b'\x00' * k, f'extended:+{k} zero bytes')
                 if f:
                     return f
+                if case['enc'].get('crc') and len(data) > 8:
+                    # extended BEFORE the checksum, the checksum recomputed over everything in front of it: the bag is k bytes
+                    # longer than its header denotes although its CRC is right
+                    body = data[:-4] + tail
+                    f = _must_raise(body + crc32c(body).to_bytes(4, 'little'), f'extended:+{k} before a recomputed crc')
+                    if f:
+                        return f
+                    # ... and the last k bytes of the cell data dropped, crc recomputed (truncated although the CRC is right)
+                    body = data[:-4 - k]
+                    f = _must_raise(body + crc32c(body).to_bytes(4, 'little'), f'truncated:-{k} before a recomputed crc')
+                    if f:
+                        return f
         return None
     if fam == 'bitflip':
         data, *_ = _encode(case, cells, force_crc=True)
